@@ -75,6 +75,20 @@ pub fn gen_case(prop: &str, seed: u64, tier: &str, run: u64) -> Case {
             p.w_read = 10;
             p.n_choices = vec![1, 1, 2, 3, 4, 5, 7, 10, 10_000];
         }
+        "C03" if rng.chance(1, if thorough { 300 } else { 100 }) => {
+            // first-time initialisation with the pre-created directory tree, killed inside it; the
+            // recovered store must be fully usable (usability suffix after every image)
+            p = crash_profile(thorough);
+            p.max_ops = 3;
+            p.w_reopen = 0;
+            let mut steps: Vec<u64> = (0..3).map(|_| 1 + rng.below(66_200)).collect();
+            steps.push(66_000 + rng.below(60));
+            mode = Mode::Crash { cuts: CutSel::Steps(steps), depth: 1, suffix_every: 1, verify: false };
+            let mut workload = gen_workload(&mut rng, &p);
+            workload.cfg.pre_create = true;
+            workload.cfg.async_mode = false;
+            return Case { property: prop.to_string(), workload, noise: None, mode };
+        }
         "C03" if rng.chance(1, 12) => {
             // a history long enough for the segment id to gain a digit (9 -> 10): puts only on few
             // keys so that every operation is one version; the crash cuts concentrate on the last
